@@ -480,3 +480,9 @@ B('r19-benign-embed-torch-ops', ['C03', 'C09', 'C10', 'C13', 'C18'], TS,
   '        mask2 = numpy.repeat(numpy.array(mask), 2)\n        self.gs[numpy.ix_(mask2, mask2)] = small_map.gs\n        self.ps[mask2] = small_map.ps',
   '        mask2 = numpy.repeat(mask.cpu().numpy(), 2)\n        self.gs[numpy.ix_(mask2, mask2)] = small_map.gs\n        self.ps[mask2] = small_map.ps')
 B('r19-benign-gate-int-list', ['C13', 'C18', 'C09'], TC, '    qubits_cond = qubits_cond.tolist() # plain integer qubit indices\n', '    qubits_cond = [int(q) for q in qubits_cond]\n')
+
+# ------------------------------------------------------------------ R7.self (phase accumulation that adds ipow of an operand with itself)
+M('r7self-tc-trace-sum-of-phases', ['C07', 'C13'], TU,
+  "        _, pa = pauli_combine(temp_acqs[:N].unsqueeze(0), gs_stb[:N], ps_stb) # phase of the ordered product of the selected stabilizers\n",
+  "        ga = torch.cumsum(temp_acqs.unsqueeze(-1)*torch.cat((ps_stb, ps_stb)).unsqueeze(0), dim=-1) % 2\n        pa = torch.sum(torch.cat((ps_stb, ps_stb))*temp_acqs + ipow(ga, ga), dim=0) % 4\n", ['R7.self'])
+M('r7self-py-expect', ['C07'], PU, 'pa = (pa + ps_stb[j-N] + ipow(ga, gs_stb[j-N]))%4', 'pa = (pa + ps_stb[j-N] + ipow(ga, ga))%4', ['R7'], 'stabilizer_expect')
